@@ -59,6 +59,18 @@ theorem specInv_runH {n : Nat} (hn : 0 < n) (ops : List HOp) (hops : HOp.op (.cl
     | setOffset v =>
       simp only [hTrace]
       exact ih hrest _ _ _ (specInv_preset hI v)
+    | clearNeg k =>
+      -- a release of something that is not an id: answers false, nothing changes
+      have hge : tbl.size ≤ 64 * sh.words.length + k := by rw [hI.size, hI.len]; omega
+      have htb : tbl.getD (64 * sh.words.length + k) false = false := by
+        rw [Array.getD_eq_getD_getElem?, Array.getElem?_eq_none hge]; rfl
+      have hav : available sh = ((64 * n - 1 - cnt : Nat) : Int) := by
+        have := hI.count; have := countBelow_le (bitAt sh.words) (64 * n)
+        simp only [available, hI.len, hI.inuse]; omega
+      simp only [hTrace, specCheck, clearNeg, specStep]
+      rw [if_pos htb.symm]
+      simp only [setIfInBounds_oob tbl _ hge, Bool.false_eq_true, ↓reduceIte, hav, decide_true, Bool.true_and]
+      exact ih hrest _ _ _ hI
     | op o =>
       have ho : o ≠ .clear 0 := fun h => hops (by simp [h])
       obtain ⟨st', h1, h2, h3⟩ := specInv_step hn hI o ho
@@ -74,6 +86,11 @@ theorem seqMonH_eq (cap : Nat) (ops : List HOp) : ∀ (sh : Shared) (tbl : Array
     intro sh tbl cnt
     cases op with
     | setOffset v => simp only [seqMonH, hTrace]; exact ih _ _ _
+    | clearNeg k =>
+      simp only [seqMonH, hTrace, specCheck]
+      split
+      · rw [ih]
+      · rfl
     | op o =>
       simp only [seqMonH, hTrace, specCheck]
       split
